@@ -155,7 +155,13 @@ class Harness:
                 time.sleep(cmd.get("hold", 0.0))
                 hooks.emit("p.seg.exit", p=pid, flavour=flavour)
             elif op == "adopt":
-                if cmd.get("own_loop") and flavour == "threading":
+                if cmd.get("own_loop") == "trio" and flavour == "threading":
+                    # the thread payload runs a private trio loop of its own and adopts from inside it
+                    async def private_trio():
+                        h.do_adopt(cmd["target"], "owntrio:" + pid)
+                        await trio.sleep(0.01)
+                    trio.run(private_trio)
+                elif cmd.get("own_loop") and flavour == "threading":
                     async def private():
                         h.do_adopt(cmd["target"], "ownloop:" + pid)
                         await asyncio.sleep(0.01)
@@ -498,7 +504,9 @@ class Harness:
 
     def run_ctx(self, ctx, fn_direct, payload_cmd):
         """perform an API call in the given context"""
-        if ctx.startswith("ownloop:"):
+        if ctx.startswith("owntrio:"):
+            self.command(ctx.split(":", 1)[1], dict(payload_cmd, own_loop="trio"))
+        elif ctx.startswith("ownloop:"):
             self.command(ctx.split(":", 1)[1], dict(payload_cmd, own_loop=True))
         elif ctx.startswith("payload:"):
             self.command(ctx.split(":", 1)[1], payload_cmd)
